@@ -85,101 +85,21 @@ Proof.
     + destruct (list_eqb b k'); [reflexivity | apply IH; exact Hne].
 Qed.
 
-Definition seen_ok (seen : list (list N * N)) (p : list (list N)) : Prop :=
-  forall b, seen_get seen b = occN b p.
+(* `seen` is zero exactly on the names not processed yet *)
+Definition seen_inv (seen : list (list N * N)) (p : list (list N)) : Prop :=
+  forall b, seen_get seen b = 0 <-> ~ In b p.
 
-Lemma seen_ok_nil : seen_ok [] [].
-Proof. intro b. reflexivity. Qed.
+Lemma seen_inv_nil : seen_inv [] [].
+Proof. intro b. split; intro H; [intros [] | reflexivity]. Qed.
 
-Lemma seen_ok_step : forall seen p n, seen_ok seen p ->
-  seen_ok (seen_set seen n (seen_get seen n + 1)) (p ++ [n]).
+Lemma seen_inv_step : forall seen p n v, seen_inv seen p -> 0 < v -> seen_inv (seen_set seen n v) (p ++ [n]).
 Proof.
-  intros seen p n H b. rewrite occN_snoc.
-  destruct (list_eqb b n) eqn:E.
-  - apply list_eqb_eq in E. subst b. rewrite seen_get_set_same. rewrite H. reflexivity.
-  - apply list_eqb_neq in E. rewrite seen_get_set_other by exact E. rewrite H. lia.
-Qed.
-
-(* ------------------------------------------------------------------ *)
-(* length, first occurrences, identity on distinct names               *)
-(* ------------------------------------------------------------------ *)
-
-Lemma dedup_loop_length : forall fs seen, length (dedup_loop seen fs) = length fs.
-Proof. induction fs as [|f t IH]; intro seen; cbn [dedup_loop length]; [reflexivity | rewrite IH; reflexivity]. Qed.
-
-Theorem dedup_preserves_length : forall fs, length (dedup fs) = length fs.
-Proof. intro fs. apply dedup_loop_length. Qed.
-
-Lemma keeps_first_gen : forall pre seen p f post,
-  seen_ok seen p -> occN (fname f) p = 0 -> ~ In (fname f) (map fname pre) ->
-  exists o1 o2, dedup_loop seen (pre ++ f :: post) = o1 ++ f :: o2 /\ length o1 = length pre.
-Proof.
-  induction pre as [|g pre IH]; intros seen p f post Hok Hocc Hnin.
-  - exists [], (dedup_loop (seen_set seen (fname f) (seen_get seen (fname f) + 1)) post).
-    split; [|reflexivity].
-    cbn [app dedup_loop]. rewrite (Hok (fname f)), Hocc.
-    replace (1 <? 0 + 1) with false by (symmetry; apply N.ltb_ge; lia). reflexivity.
-  - cbn [app dedup_loop].
-    destruct (IH (seen_set seen (fname g) (seen_get seen (fname g) + 1)) (p ++ [fname g]) f post) as [o1 [o2 [E L]]].
-    + apply seen_ok_step. exact Hok.
-    + rewrite occN_snoc, Hocc.
-      destruct (list_eqb (fname f) (fname g)) eqn:E; [|reflexivity].
-      apply list_eqb_eq in E. exfalso. apply Hnin. cbn [map In]. left. congruence.
-    + intro H. apply Hnin. cbn [map In]. right. exact H.
-    + eexists (_ :: o1), o2. split; [cbn [app]; rewrite E; reflexivity | cbn [length]; rewrite L; reflexivity].
-Qed.
-
-(* the first field carrying a name keeps its name and its JSON key *)
-Theorem dedup_keeps_first : forall pre f post,
-  ~ In (fname f) (map fname pre) ->
-  exists o1 o2, dedup (pre ++ f :: post) = o1 ++ f :: o2 /\ length o1 = length pre.
-Proof.
-  intros pre f post H. unfold dedup. apply (keeps_first_gen pre [] [] f post seen_ok_nil); [reflexivity | exact H].
-Qed.
-
-Lemma dedup_id_gen : forall fs seen p,
-  seen_ok seen p -> NoDup (map fname fs) -> (forall f, In f fs -> occN (fname f) p = 0) ->
-  dedup_loop seen fs = fs.
-Proof.
-  induction fs as [|f t IH]; intros seen p Hok Hnd Hp; [reflexivity|].
-  cbn [dedup_loop]. rewrite (Hok (fname f)), (Hp f (or_introl eq_refl)).
-  replace (1 <? 0 + 1) with false by (symmetry; apply N.ltb_ge; lia).
-  f_equal. cbn [map] in Hnd. inversion Hnd as [|x l Hnin Hnd']; subst.
-  apply (IH _ (p ++ [fname f])).
-  - replace (0 + 1) with (seen_get seen (fname f) + 1) by (rewrite (Hok (fname f)), (Hp f (or_introl eq_refl)); reflexivity).
-    apply seen_ok_step. exact Hok.
-  - exact Hnd'.
-  - intros g Hg. rewrite occN_snoc, (Hp g (or_intror Hg)).
-    destruct (list_eqb (fname g) (fname f)) eqn:E; [|reflexivity].
-    apply list_eqb_eq in E. exfalso. apply Hnin. rewrite <- E. apply in_map. exact Hg.
-Qed.
-
-(* nothing is renamed when the names are already distinct *)
-Theorem dedup_id_on_nodup : forall fs, NoDup (map fname fs) -> dedup fs = fs.
-Proof.
-  intros fs H. unfold dedup. apply (dedup_id_gen fs [] [] seen_ok_nil H). intros; reflexivity.
-Qed.
-
-(* ------------------------------------------------------------------ *)
-(* names after de-duplication: closed form                             *)
-(* ------------------------------------------------------------------ *)
-
-Fixpoint rename_spec (p : list (list N)) (l : list (list N)) : list (list N) :=
-  match l with
-  | [] => []
-  | n :: t => (if occN n p =? 0 then n else suffixed n (occN n p)) :: rename_spec (p ++ [n]) t
-  end.
-
-Lemma dedup_loop_names : forall fs seen p, seen_ok seen p ->
-  map fname (dedup_loop seen fs) = rename_spec p (map fname fs).
-Proof.
-  induction fs as [|f t IH]; intros seen p Hok; [reflexivity|].
-  cbn [dedup_loop map rename_spec]. rewrite (IH _ (p ++ [fname f])) by (apply seen_ok_step; exact Hok).
-  f_equal. rewrite (Hok (fname f)).
-  destruct (occN (fname f) p =? 0) eqn:E.
-  - apply N.eqb_eq in E. rewrite E. replace (1 <? 0 + 1) with false by (symmetry; apply N.ltb_ge; lia). reflexivity.
-  - apply N.eqb_neq in E. replace (1 <? occN (fname f) p + 1) with true by (symmetry; apply N.ltb_lt; lia).
-    cbn [fname]. replace (occN (fname f) p + 1 - 1) with (occN (fname f) p) by lia. reflexivity.
+  intros seen p n v H Hv b. destruct (list_eqb b n) eqn:E.
+  - apply list_eqb_eq in E. subst b. rewrite seen_get_set_same. split; intro H1; [lia|].
+    exfalso. apply H1. apply in_or_app. right. left. reflexivity.
+  - apply list_eqb_neq in E. rewrite seen_get_set_other by exact E. rewrite (H b). split; intros H1 H2; apply H1.
+    + apply in_app_or in H2. destruct H2 as [H2|[H2|[]]]; [exact H2 | congruence].
+    + apply in_or_app. left. exact H2.
 Qed.
 
 (* ------------------------------------------------------------------ *)
@@ -277,122 +197,260 @@ Proof.
 Qed.
 
 (* ------------------------------------------------------------------ *)
-(* uniqueness of the de-duplicated names                               *)
+(* the search for a free suffix                                        *)
 (* ------------------------------------------------------------------ *)
 
-Lemma strip_prefix_app : forall m x, strip_prefix m (m ++ x) = Some x.
-Proof. induction m as [|a m IH]; intro x; cbn [strip_prefix app]; [reflexivity | rewrite N.eqb_refl; apply IH]. Qed.
-
-Lemma suffixed_has_suffix : forall m k, has_num_suffix_of m (suffixed m k) = true.
+Lemma find_free_spec : forall fuel taken base n k,
+  find_free fuel taken base n = Some k -> n <= k /\ ~ In (suffixed base k) taken.
 Proof.
-  intros m k. unfold has_num_suffix_of, suffixed. rewrite strip_prefix_app. cbn [app].
-  pose proof (dec_digits k) as Hd. pose proof (dec_nonempty k) as Hn.
-  destruct (dec k) as [|d ds]; [contradiction|]. rewrite N.eqb_refl. exact Hd.
+  induction fuel as [|f IH]; intros taken base n k H; [discriminate|].
+  cbn [find_free] in H. destruct (memb (suffixed base n) taken) eqn:E.
+  - apply IH in H. destruct H as [H1 H2]. split; [lia | exact H2].
+  - inversion H; subst. split; [lia|]. intro Hin. apply memb_In in Hin. congruence.
 Qed.
 
-Lemma clash_free_spec : forall names m n k,
-  clash_free names = true -> In m names -> In n names -> 2 <= occN m names -> n <> suffixed m k.
+Fixpoint cands (fuel : nat) (base : list N) (n : N) : list (list N) :=
+  match fuel with
+  | O => []
+  | S f => suffixed base n :: cands f base (n + 1)
+  end.
+
+Lemma cands_In : forall fuel base n x, In x (cands fuel base n) -> exists k, n <= k /\ x = suffixed base k.
 Proof.
-  intros names m n k H Hm Hn Hocc E. unfold clash_free in H. rewrite forallb_forall in H.
-  specialize (H m Hm). apply orb_true_iff in H. destruct H as [H|H].
-  - apply N.leb_le in H. lia.
-  - rewrite forallb_forall in H. specialize (H n Hn). subst n. rewrite suffixed_has_suffix in H. discriminate.
+  induction fuel as [|f IH]; intros base n x H; [contradiction|].
+  cbn [cands In] in H. destruct H as [H|H].
+  - exists n. split; [lia | symmetry; exact H].
+  - apply IH in H. destruct H as [k [H1 H2]]. exists k. split; [lia | exact H2].
 Qed.
 
-(* what the renamed list contains: an untouched first occurrence, or base_k with k counting earlier occurrences *)
-Lemma rename_spec_In : forall l p x, In x (rename_spec p l) ->
-  (In x l /\ occN x p = 0) \/
-  (exists n k, In n l /\ 1 <= k /\ occN n p <= k /\ k < occN n p + occN n l /\ x = suffixed n k).
+Lemma cands_nodup : forall fuel base n, NoDup (cands fuel base n).
 Proof.
-  induction l as [|n t IH]; intros p x H; [contradiction|].
-  cbn [rename_spec In] in H. destruct H as [H|H].
-  - destruct (occN n p =? 0) eqn:E.
-    + apply N.eqb_eq in E. left. subst x. split; [left; reflexivity | exact E].
-    + apply N.eqb_neq in E. right. exists n, (occN n p). cbn [occN]. rewrite list_eqb_refl.
-      repeat split; try lia; [left; reflexivity | symmetry; exact H].
-  - apply IH in H. destruct H as [[H1 H2]|[m [k [H1 [H2 [H3 [H4 H5]]]]]]].
-    + left. split; [right; exact H1|]. rewrite occN_snoc in H2. lia.
-    + right. exists m, k. rewrite occN_snoc in H3, H4. cbn [occN].
-      repeat split; try assumption; [right; exact H1 | | ].
-      * destruct (list_eqb m n); lia.
-      * destruct (list_eqb m n); lia.
+  induction fuel as [|f IH]; intros base n; cbn [cands]; constructor; [|apply IH].
+  intro H. apply cands_In in H. destruct H as [k [H1 H2]]. apply suffixed_inj in H2. lia.
 Qed.
 
-Lemma rename_spec_nodup : forall l p, clash_free (p ++ l) = true -> NoDup (rename_spec p l).
+Lemma cands_length : forall fuel base n, List.length (cands fuel base n) = fuel.
+Proof. induction fuel as [|f IH]; intros; cbn [cands List.length]; [reflexivity | rewrite IH; reflexivity]. Qed.
+
+Lemma find_free_none : forall fuel taken base n,
+  find_free fuel taken base n = None -> incl (cands fuel base n) taken.
 Proof.
-  induction l as [|n t IH]; intros p Hcf; [constructor|].
-  cbn [rename_spec]. constructor.
-  - intro Hin. apply rename_spec_In in Hin.
-    assert (Hn_all : In n (p ++ n :: t)) by (apply in_or_app; right; left; reflexivity).
-    destruct (occN n p =? 0) eqn:E.
-    + apply N.eqb_eq in E. destruct Hin as [[H1 H2]|[m [k [H1 [H2 [H3 [H4 H5]]]]]]].
-      * rewrite occN_snoc, list_eqb_refl in H2. lia.
-      * (* n = suffixed m k with m occurring at least twice in p ++ n :: t *)
-        refine (clash_free_spec (p ++ n :: t) m n k Hcf _ Hn_all _ H5).
-        -- apply in_or_app. right. right. exact H1.
-        -- rewrite occN_app. cbn [occN]. rewrite occN_snoc in H3, H4. destruct (list_eqb m n); lia.
-    + apply N.eqb_neq in E. destruct Hin as [[H1 H2]|[m [k [H1 [H2 [H3 [H4 H5]]]]]]].
-      * (* the generated name is also a later original name *)
-        refine (clash_free_spec (p ++ n :: t) n (suffixed n (occN n p)) (occN n p) Hcf Hn_all _ _ eq_refl).
-        -- apply in_or_app. right. right. exact H1.
-        -- rewrite occN_app. cbn [occN]. rewrite list_eqb_refl. lia.
-      * apply suffixed_inj in H5. destruct H5 as [E1 E2]. subst m k.
-        rewrite occN_snoc, list_eqb_refl in H3. lia.
-  - apply IH. rewrite <- app_assoc. exact Hcf.
+  induction fuel as [|f IH]; intros taken base n H x Hx; [contradiction|].
+  cbn [find_free] in H. destruct (memb (suffixed base n) taken) eqn:E; [|discriminate].
+  cbn [cands In] in Hx. destruct Hx as [Hx|Hx].
+  - subst x. apply memb_In. exact E.
+  - exact (IH taken base (n + 1) H x Hx).
 Qed.
 
-(* Full statement (false of the code, see dedup_unique_refuted):
-     forall fs, NoDup (map fname (dedup fs)).
-   It holds when no field name is a repeated field name followed by `_<digits>`. *)
-Theorem dedup_unique_partial : forall fs,
-  clash_free (map fname fs) = true -> NoDup (map fname (dedup fs)).
+(* the search never runs out of fuel: |taken| + 1 distinct candidates cannot all be taken *)
+Lemma find_free_total : forall taken base n, find_free (S (List.length taken)) taken base n <> None.
 Proof.
-  intros fs H. unfold dedup. rewrite (dedup_loop_names fs [] [] seen_ok_nil).
-  apply rename_spec_nodup. exact H.
+  intros taken base n H. apply find_free_none in H.
+  pose proof (NoDup_incl_length (cands_nodup (S (List.length taken)) base n) H) as L.
+  rewrite cands_length in L. lia.
+Qed.
+
+(* ------------------------------------------------------------------ *)
+(* totality, length, first occurrences, identity on distinct names     *)
+(* ------------------------------------------------------------------ *)
+
+Lemma dedup_loop_total : forall fs taken seen, dedup_loop taken seen fs <> None.
+Proof.
+  induction fs as [|f t IH]; intros taken seen; cbn [dedup_loop]; [discriminate|].
+  destruct (1 <? seen_get seen (fname f) + 1).
+  - destruct (find_free (S (List.length taken)) taken (fname f) (seen_get seen (fname f) + 1 - 1)) eqn:E;
+      [|exfalso; exact (find_free_total _ _ _ E)].
+    destruct (dedup_loop (suffixed (fname f) n :: taken) (seen_set seen (fname f) (n + 1)) t) eqn:E2;
+      [discriminate | exfalso; exact (IH _ _ E2)].
+  - destruct (dedup_loop taken (seen_set seen (fname f) (seen_get seen (fname f) + 1)) t) eqn:E2;
+      [discriminate | exfalso; exact (IH _ _ E2)].
+Qed.
+
+(* the fuel of the suffix search is never exhausted *)
+Theorem dedup_total : forall fs, exists out, dedup fs = Some out.
+Proof.
+  intro fs. destruct (dedup fs) eqn:E; [eexists; reflexivity|]. exfalso. exact (dedup_loop_total _ _ _ E).
+Qed.
+
+(* one step of the loop, as an inversion principle *)
+Lemma dedup_loop_cons : forall f t taken seen out,
+  dedup_loop taken seen (f :: t) = Some out ->
+  (seen_get seen (fname f) = 0 /\
+   exists r, out = f :: r /\ dedup_loop taken (seen_set seen (fname f) 1) t = Some r) \/
+  (0 < seen_get seen (fname f) /\
+   exists n r, seen_get seen (fname f) <= n /\ ~ In (suffixed (fname f) n) taken /\
+     out = {| fname := suffixed (fname f) n;
+              forig := if list_eqb (forig f) (fname f) then suffixed (fname f) n else forig f |} :: r /\
+     dedup_loop (suffixed (fname f) n :: taken) (seen_set seen (fname f) (n + 1)) t = Some r).
+Proof.
+  intros f t taken seen out H. cbn [dedup_loop] in H.
+  destruct (1 <? seen_get seen (fname f) + 1) eqn:E.
+  - apply N.ltb_lt in E. right. split; [lia|].
+    destruct (find_free (S (List.length taken)) taken (fname f) (seen_get seen (fname f) + 1 - 1)) eqn:F; [|discriminate].
+    apply find_free_spec in F. destruct F as [F1 F2].
+    destruct (dedup_loop (suffixed (fname f) n :: taken) (seen_set seen (fname f) (n + 1)) t) eqn:R; [|discriminate].
+    inversion H; subst. exists n, l. repeat split; try assumption; lia.
+  - apply N.ltb_ge in E. assert (Z0 : seen_get seen (fname f) = 0) by lia. left. split; [exact Z0|].
+    rewrite Z0 in H. change (0 + 1) with 1 in H.
+    destruct (dedup_loop taken (seen_set seen (fname f) 1) t) eqn:R; [|discriminate].
+    inversion H; subst. exists l. split; reflexivity.
+Qed.
+
+Lemma dedup_loop_length : forall fs taken seen out, dedup_loop taken seen fs = Some out -> List.length out = List.length fs.
+Proof.
+  induction fs as [|f t IH]; intros taken seen out H.
+  - inversion H. reflexivity.
+  - apply dedup_loop_cons in H. destruct H as [[_ [r [E R]]]|[_ [n [r [_ [_ [E R]]]]]]]; subst out;
+      cbn [List.length]; rewrite (IH _ _ _ R); reflexivity.
+Qed.
+
+Theorem dedup_preserves_length : forall fs out, dedup fs = Some out -> List.length out = List.length fs.
+Proof. intros fs out H. exact (dedup_loop_length _ _ _ _ H). Qed.
+
+Lemma keeps_first_gen : forall pre taken seen p f post out,
+  seen_inv seen p -> ~ In (fname f) p -> ~ In (fname f) (map fname pre) ->
+  dedup_loop taken seen (pre ++ f :: post) = Some out ->
+  exists o1 o2, out = o1 ++ f :: o2 /\ List.length o1 = List.length pre.
+Proof.
+  induction pre as [|g pre IH]; intros taken seen p f post out Hinv Hp Hnin H.
+  - cbn [app] in H. apply dedup_loop_cons in H. destruct H as [[_ [r [E _]]]|[Hpos _]].
+    + exists [], r. split; [exact E | reflexivity].
+    + exfalso. apply (Hinv (fname f)) in Hp. lia.
+  - cbn [app] in H. apply dedup_loop_cons in H.
+    assert (Hp' : ~ In (fname f) (p ++ [fname g])).
+    { intro Hin. apply in_app_or in Hin. destruct Hin as [Hin|[Hin|[]]]; [exact (Hp Hin)|].
+      apply Hnin. cbn [map In]. left. exact Hin. }
+    assert (Hnin' : ~ In (fname f) (map fname pre)) by (intro Hin; apply Hnin; cbn [map In]; right; exact Hin).
+    destruct H as [[_ [r [E R]]]|[_ [n [r [_ [_ [E R]]]]]]].
+    + destruct (IH _ _ (p ++ [fname g]) f post r (seen_inv_step _ _ _ 1 Hinv ltac:(lia)) Hp' Hnin' R) as [o1 [o2 [E1 L]]].
+      exists (g :: o1), o2. subst. split; [reflexivity | cbn [List.length]; rewrite L; reflexivity].
+    + destruct (IH _ _ (p ++ [fname g]) f post r (seen_inv_step _ _ _ (n + 1) Hinv ltac:(lia)) Hp' Hnin' R) as [o1 [o2 [E1 L]]].
+      eexists (_ :: o1), o2. subst. split; [reflexivity | cbn [List.length]; rewrite L; reflexivity].
+Qed.
+
+(* the first field carrying a name keeps its name and its JSON key *)
+Theorem dedup_keeps_first : forall pre f post out,
+  ~ In (fname f) (map fname pre) -> dedup (pre ++ f :: post) = Some out ->
+  exists o1 o2, out = o1 ++ f :: o2 /\ List.length o1 = List.length pre.
+Proof.
+  intros pre f post out H E. unfold dedup in E.
+  exact (keeps_first_gen pre _ [] [] f post out seen_inv_nil (fun x => x) H E).
+Qed.
+
+Lemma dedup_id_gen : forall fs taken seen p,
+  seen_inv seen p -> NoDup (map fname fs) -> (forall f, In f fs -> ~ In (fname f) p) ->
+  dedup_loop taken seen fs = Some fs.
+Proof.
+  induction fs as [|f t IH]; intros taken seen p Hinv Hnd Hp; [reflexivity|].
+  cbn [map] in Hnd. inversion Hnd as [|x l Hnin Hnd']; subst.
+  assert (Z0 : seen_get seen (fname f) = 0) by (apply Hinv; apply Hp; left; reflexivity).
+  cbn [dedup_loop]. rewrite Z0. change (1 <? 0 + 1) with false. cbv iota. change (0 + 1) with 1.
+  rewrite (IH taken (seen_set seen (fname f) 1) (p ++ [fname f])); [reflexivity | | exact Hnd' | ].
+  - apply seen_inv_step; [exact Hinv | lia].
+  - intros g Hg Hin. apply in_app_or in Hin. destruct Hin as [Hin|[Hin|[]]].
+    + exact (Hp g (or_intror Hg) Hin).
+    + apply Hnin. rewrite Hin. apply in_map. exact Hg.
+Qed.
+
+(* nothing is renamed when the names are already distinct *)
+Theorem dedup_id_on_nodup : forall fs, NoDup (map fname fs) -> dedup fs = Some fs.
+Proof.
+  intros fs H. unfold dedup. apply (dedup_id_gen fs _ [] [] seen_inv_nil H). intros f _ [].
+Qed.
+
+(* ------------------------------------------------------------------ *)
+(* uniqueness of the de-duplicated names (full strength)               *)
+(* ------------------------------------------------------------------ *)
+
+(* every output name is a not yet processed original name, or was free when it was generated *)
+Lemma dedup_loop_out : forall fs taken seen p out,
+  seen_inv seen p -> dedup_loop taken seen fs = Some out ->
+  forall x, In x (map fname out) -> (In x (map fname fs) /\ ~ In x p) \/ ~ In x taken.
+Proof.
+  induction fs as [|f t IH]; intros taken seen p out Hinv H x Hx.
+  - inversion H; subst. contradiction.
+  - apply dedup_loop_cons in H. destruct H as [[Z0 [r [E R]]]|[Hpos [n [r [Hn [Hfree [E R]]]]]]]; subst out;
+      cbn [map In] in Hx; destruct Hx as [Hx|Hx].
+    + left. subst x. split; [left; reflexivity | apply Hinv; exact Z0].
+    + destruct (IH _ _ (p ++ [fname f]) r (seen_inv_step _ _ _ 1 Hinv ltac:(lia)) R x Hx) as [[H1 H2]|H1].
+      * left. split; [right; exact H1 | intro Hin; apply H2; apply in_or_app; left; exact Hin].
+      * right. exact H1.
+    + right. cbn [fname] in Hx. subst x. exact Hfree.
+    + destruct (IH _ _ (p ++ [fname f]) r (seen_inv_step _ _ _ (n + 1) Hinv ltac:(lia)) R x Hx) as [[H1 H2]|H1].
+      * left. split; [right; exact H1 | intro Hin; apply H2; apply in_or_app; left; exact Hin].
+      * right. intro Hin. apply H1. right. exact Hin.
+Qed.
+
+Lemma dedup_loop_nodup : forall fs taken seen p out,
+  seen_inv seen p -> incl (map fname fs) taken -> dedup_loop taken seen fs = Some out ->
+  NoDup (map fname out).
+Proof.
+  induction fs as [|f t IH]; intros taken seen p out Hinv Hincl H.
+  - inversion H; subst. constructor.
+  - assert (Hincl' : incl (map fname t) taken) by (intros y Hy; apply Hincl; right; exact Hy).
+    apply dedup_loop_cons in H. destruct H as [[Z0 [r [E R]]]|[Hpos [n [r [Hn [Hfree [E R]]]]]]]; subst out; cbn [map].
+    + constructor; [|exact (IH _ _ (p ++ [fname f]) r (seen_inv_step _ _ _ 1 Hinv ltac:(lia)) Hincl' R)].
+      intro Hin.
+      destruct (dedup_loop_out _ _ _ (p ++ [fname f]) r (seen_inv_step _ _ _ 1 Hinv ltac:(lia)) R _ Hin) as [[_ H2]|H1].
+      * apply H2. apply in_or_app. right. left. reflexivity.
+      * apply H1. apply Hincl. left. reflexivity.
+    + cbn [fname]. constructor.
+      * intro Hin.
+        destruct (dedup_loop_out _ _ _ (p ++ [fname f]) r (seen_inv_step _ _ _ (n + 1) Hinv ltac:(lia)) R _ Hin) as [[H1 _]|H1].
+        -- apply Hfree. apply Hincl'. exact H1.
+        -- apply H1. left. reflexivity.
+      * refine (IH (suffixed (fname f) n :: taken) _ (p ++ [fname f]) r (seen_inv_step _ _ _ (n + 1) Hinv ltac:(lia)) _ R).
+        intros y Hy. right. apply Hincl'. exact Hy.
+Qed.
+
+(* unique field names per type, for every field list *)
+Theorem dedup_unique : forall fs out, dedup fs = Some out -> NoDup (map fname out).
+Proof.
+  intros fs out H. unfold dedup in H.
+  exact (dedup_loop_nodup fs _ [] [] out seen_inv_nil (incl_refl _) H).
 Qed.
 
 Definition f_of (n o : string) : field := {| fname := s2n n; forig := s2n o |}.
 
-Theorem dedup_unique_refuted : exists fs, ~ NoDup (map fname (dedup fs)).
-Proof.
-  exists [f_of "a" "a"; f_of "a_1" "a_1"; f_of "a" "a"]%string.
-  vm_compute. intro H.
-  apply NoDup_cons_iff in H. destruct H as [_ H].
-  apply NoDup_cons_iff in H. destruct H as [H _].
-  apply H. left. reflexivity.
-Qed.
+(* the witness of the repaired finding kf-c17-dedup-suffix-collision *)
+Lemma dedup_former_witness :
+  option_map (map fname) (dedup [f_of "a" "a"; f_of "a_1" "a_1"; f_of "a" "a"]%string) = Some (map s2n ["a"; "a_1"; "a_2"]%string).
+Proof. vm_compute. reflexivity. Qed.
 
 (* ------------------------------------------------------------------ *)
 (* JSON keys through de-duplication                                    *)
 (* ------------------------------------------------------------------ *)
 
-Lemma dedup_key_gen : forall fs seen p names,
-  seen_ok seen p -> names = p ++ map fname fs ->
-  Forall2 (fun f f' => key_stable names f = true -> forig f' = forig f) fs (dedup_loop seen fs).
+Lemma dedup_key_gen : forall fs taken seen p names out,
+  seen_inv seen p -> names = p ++ map fname fs -> dedup_loop taken seen fs = Some out ->
+  Forall2 (fun f f' => key_stable names f = true -> forig f' = forig f) fs out.
 Proof.
-  induction fs as [|f t IH]; intros seen p names Hok Hn; [constructor|].
-  cbn [dedup_loop]. constructor.
-  - intro Hks. rewrite (Hok (fname f)).
-    destruct (1 <? occN (fname f) p + 1) eqn:E; [|reflexivity].
-    cbn [forig]. destruct (list_eqb (forig f) (fname f)) eqn:Eo; [|reflexivity].
-    exfalso. unfold key_stable in Hks. rewrite Eo in Hks. cbn [negb orb] in Hks.
-    apply N.eqb_eq in Hks. apply N.ltb_lt in E. subst names.
-    rewrite occN_app in Hks. cbn [map occN] in Hks. rewrite list_eqb_refl in Hks. lia.
-  - apply (IH _ (p ++ [fname f])); [apply seen_ok_step; exact Hok|].
-    subst names. rewrite <- app_assoc. reflexivity.
+  induction fs as [|f t IH]; intros taken seen p names out Hinv Hn H.
+  - inversion H; subst. constructor.
+  - assert (Hn' : names = (p ++ [fname f]) ++ map fname t) by (subst names; rewrite <- app_assoc; reflexivity).
+    apply dedup_loop_cons in H. destruct H as [[Z0 [r [E R]]]|[Hpos [n [r [Hn1 [Hfree [E R]]]]]]]; subst out; constructor.
+    + intros _. reflexivity.
+    + exact (IH _ _ (p ++ [fname f]) names r (seen_inv_step _ _ _ 1 Hinv ltac:(lia)) Hn' R).
+    + intro Hks. cbn [forig]. destruct (list_eqb (forig f) (fname f)) eqn:Eo; [|reflexivity].
+      exfalso. unfold key_stable in Hks. rewrite Eo in Hks. cbn [negb orb] in Hks. apply N.eqb_eq in Hks.
+      assert (Hin : In (fname f) p).
+      { destruct (in_dec (list_eq_dec N.eq_dec) (fname f) p) as [Hi|Hi]; [exact Hi|]. apply Hinv in Hi. lia. }
+      apply occN_In_pos in Hin. rewrite Hn in Hks. rewrite occN_app in Hks. cbn [map occN] in Hks.
+      rewrite list_eqb_refl in Hks. lia.
+    + exact (IH _ _ (p ++ [fname f]) names r (seen_inv_step _ _ _ (n + 1) Hinv ltac:(lia)) Hn' R).
 Qed.
 
 (* Full statement (false of the code, see dedup_keeps_key_refuted):
-     forall fs, map forig (dedup fs) = map forig fs     for fields that come from a named key.
+     every field that comes from a named key keeps that key as its serde name.
    Pointwise it holds for every field whose key differs from its name, or whose name is unique. *)
-Theorem dedup_keeps_key_partial : forall fs,
-  Forall2 (fun f f' => key_stable (map fname fs) f = true -> forig f' = forig f) fs (dedup fs).
-Proof. intro fs. unfold dedup. apply (dedup_key_gen fs [] [] _ seen_ok_nil). reflexivity. Qed.
+Theorem dedup_keeps_key_partial : forall fs out, dedup fs = Some out ->
+  Forall2 (fun f f' => key_stable (map fname fs) f = true -> forig f' = forig f) fs out.
+Proof. intros fs out H. unfold dedup in H. exact (dedup_key_gen fs _ [] [] _ out seen_inv_nil eq_refl H). Qed.
 
-Theorem dedup_keeps_key_refuted : exists ks,
-  map serde_name (struct_fields (map KNamed ks)) <> ks.
+Theorem dedup_keeps_key_refuted : exists ks out,
+  struct_fields (map KNamed ks) = Some out /\ map serde_name out <> ks.
 Proof.
-  exists [s2n "foo-bar"; s2n "foo_bar"]. vm_compute. intro H. discriminate H.
+  exists [s2n "foo-bar"; s2n "foo_bar"]. eexists. split; [vm_compute; reflexivity|]. vm_compute. intro H. discriminate H.
 Qed.
 
 (* ------------------------------------------------------------------ *)
@@ -426,27 +484,18 @@ Proof.
   apply snoc_us_not_in. exact code_kw_no_trailing_us.
 Qed.
 
-(* Full statement (false of the code, see snake_not_reserved_refuted):
-     forall s, is_reserved (to_snake s) = false.
-   It holds unless the un-escaped name is one of the reserved words missing from is_rust_keyword. *)
-Theorem snake_not_reserved_partial : forall s,
-  memb (snake_pre s) unescaped_reserved = false -> is_reserved (to_snake s) = false.
+Lemma reserved_all_escaped : forallb is_rust_keyword rust_reserved_2021 = true.
+Proof. vm_compute. reflexivity. Qed.
+
+(* the escaped name is never a word reserved in edition 2021 (The Rust Reference list) *)
+Theorem snake_not_reserved : forall s, is_reserved (to_snake s) = false.
 Proof.
-  intros s H. unfold to_snake. destruct (is_rust_keyword (snake_pre s)) eqn:E.
+  intro s. unfold to_snake. destruct (is_rust_keyword (snake_pre s)) eqn:E.
   - apply snoc_us_not_in. exact reserved_no_trailing_us.
   - destruct (is_reserved (snake_pre s)) eqn:R; [|reflexivity].
-    exfalso. assert (Hin : In (snake_pre s) unescaped_reserved).
-    { unfold unescaped_reserved. apply filter_In. split; [apply memb_In; exact R | rewrite E; reflexivity]. }
-    apply memb_In in Hin. congruence.
+    exfalso. apply memb_In in R. pose proof reserved_all_escaped as H. rewrite forallb_forall in H.
+    rewrite (H _ R) in E. discriminate.
 Qed.
-
-Theorem snake_not_reserved_refuted : exists s, is_reserved (to_snake s) = true.
-Proof. exists (s2n "do"). vm_compute. reflexivity. Qed.
-
-(* the list of reserved words the code does not escape *)
-Lemma unescaped_reserved_list : unescaped_reserved =
-  map s2n ["abstract"; "become"; "do"; "final"; "macro"; "override"; "priv"; "typeof"; "unsized"; "virtual"; "try"]%string.
-Proof. vm_compute. reflexivity. Qed.
 
 (* every word the code escapes is reserved: nothing is escaped needlessly *)
 Lemma code_keywords_reserved : forallb is_reserved code_keywords = true.
